@@ -248,7 +248,7 @@ def worker(ctx, job):
     sizes = tables.SIZES_QUICK if quick else tables.SIZES_ALL
     if quick and algo not in ("sha256", "xxh3"):
         sizes = tables.SIZES_SMALL + [ref.MIB]
-    for n in sizes:
+    for n in list(sizes) + [s_ for s_ in (8193, 5, 1025, 0, 2) if s_ in sizes]:
         if streamed:
             chs = tables.chunkings(n, full=not quick or n <= 8193)
             if quick and n > 8193:
@@ -258,14 +258,15 @@ def worker(ctx, job):
         declareds = ["none", "correct"] if entry in ("open", "open_hash") else ["none"]
         for declared in declareds:
             for ci, chunks in enumerate(chs):
-                key = ("k-%s-%d" % (entry, n)) if keyed else None
+                # the same key is re-written with records of varying length (sizes go up, then down again)
+                key = ("k-%s" % entry) if keyed else None
                 tag = (n + 3 * ci + len(algo)) % 251
                 check_write(ctx, res, srv, cache, flavour, side, entry, key, algo, n, tag, chunks, declared)
                 count += 1
                 # single-call write() loop variant for small streamed inputs
                 if streamed and n <= 8193 and ci == 0:
                     check_write(ctx, res, srv, cache, flavour, side, entry, key, algo, n, tag + 1, chunks, declared, write_op="w_write")
-                if count % 40 == 0:
+                if count % 400 == 0:
                     fsutil.wipe(cache)
     fsutil.wipe(cache)
     res["samples"].append({"kind": "data", "flavour": flavour, "side": side, "entry": entry, "algo": algo, "sizes": sizes[:4] + ["..."],
